@@ -35,6 +35,7 @@ def run(tier, seed, pid=PID):
         big = rnd.random() < 0.3
         c, m = daemon.random_script(rnd, ntasks=rnd.choice([2, 3, 3, 6]) if big else 3, horizon=14, steps=rnd.choice([25, 40, 70]), big=big,
                                     maxsims=(0, 0, 1, 2, 3) if pid == 'C12' else (0, 0, 0, 1, 2),
+                                    calmax=pid == 'C12',
                                     peers=rnd.choice([(1000,), (1000,), (1000, 1001), (1000, 1001, 1002)]))      # whose task it is shows in what the executor is told (run-as)
         rs.append((c, m, None))
     # plus tasks whose occurrences are plain dates, with a clock that moves in hours and days
